@@ -280,10 +280,18 @@ func (tr TranslationConfig) TranslatePackages(modDir string,
 	wg.Add(len(pkgs))
 	for i, pkg := range pkgs {
 		go func(i int, pkg *packages.Package) {
+			defer wg.Done()
+			defer func() {
+				// a panic (a package reaching two FFIs, a translator bug)
+				// fails this package only, not the ones translated with it
+				if r := recover(); r != nil {
+					files[i] = coq.File{PkgPath: pkg.PkgPath, GoPackage: pkg.Name}
+					errs[i] = fmt.Errorf("could not translate package %s: %v", pkg.PkgPath, r)
+				}
+			}()
 			f, err := tr.translatePackage(pkg)
 			files[i] = f
 			errs[i] = err
-			wg.Done()
 		}(i, pkg)
 	}
 	wg.Wait()
